@@ -219,7 +219,8 @@ def _more():
                 t = tq(n, qmax_of(kind, op, 4, 3, 4), tmax)
                 t2 = tq(n, qmax_of(kind, op, 3, 2, 1), tmax)
                 step(op, kind, n, "inv", "or", {op_: t, "C08": t})
-                step(op, kind, n, "cs", "mo", {"C03": t2, "C08": t})
+                # (the pair the predicate accepted is the pair returned: C03 as much as C08)
+                step(op, kind, n, "cs", "mo", {"C03": t if n <= 3 else t2, "C08": t})
                 step(op, kind, n, "cs", "st", {"C04": t2})
                 op = f"peek_{e}_mut"
                 t = tq(n, 4 if kind == "pq" else 3, tmax)
